@@ -225,7 +225,7 @@ class C01(RenderProp):
     n_quick = 3000
     n_thorough = 40000
     required_theorems = ["C01_extract", "C01_ops_table", "C01_closures", "C01_arith_matrix", "C01_cmp_matrix", "C01_arith", "C01_rem", "C01_concat", "C01_compare_numbers",
-                         "C01_compare_strings", "C01_truthiness", "C01_logical_operands", "C01_conditional", "C01_eval_scalar", "C01_eval_scalar_entry", "C01_print_scalar"]
+                         "C01_compare_strings", "C01_truthiness", "C01_logical_operands", "C01_conditional", "C01_eval_scalar", "C01_eval_scalar_entry", "C01_print_scalar", "C01_render_bool_end_to_end"]
     assumptions = ["numbers are modelled by exact rationals; Number.String by fmtG10 (validated by correspondence)",
                    "the round trip pipeline AST -> action source text -> forked text/template parser is taken as the identity (validated end to end by the correspondence)"]
     rule = ("type-directed random expression trees of the supported subset (depth <= 5 quick / 8 thorough) over 8-12 typed data "
@@ -345,7 +345,7 @@ class C04(RenderProp):
     n_quick = 3600
     n_thorough = 60000
     required_theorems = ["C04_extract", "C04_matrix", "C04_wrapKind", "C04_escape_table", "C04_escape_safe", "C04_escape_hom", "C04_substitution",
-                         "C04_escape_eq_spec", "C04_print_escaped", "C04_code_escaped_scalar"]
+                         "C04_escape_eq_spec", "C04_print_escaped", "C04_code_escaped_scalar", "C04_render_escaped_end_to_end"]
     rule = ("every string-carrying expression shape (variable, member, nested member, index, key index, concatenation both ways, conditional both "
             "branches, || default on undefined and on empty string, &&, function result, method result, join, template literal, array literal) x 7 positions "
             "(bare, between texts, inside tags, in if / each bodies, after unbuffered code, between brace texts) x hostile strings built from the five significant "
